@@ -424,9 +424,13 @@ def run(tier, seed):
     (tcodes, k1), (codes, k2), (mcodes, k3) = results
     for v, c in zip(tvals, tcodes):
         if c: raise AssertionError("C13 harness: generator produced an ill-typed pattern (code %d): %r" % (c, v))
-    verd = {}; truth = {"True": 0, "False": 0}
+    verd = {}; truth = {"True": 0, "False": 0}; premise_false = []
     for v, d, c in zip(S.vals, S.desc, codes):
         verd[c] = verd.get(c, 0) + 1
+        if c == 30:
+            # answer right, model agrees, but the boolean premise of C13_equal_correct is false for the pair
+            if len(premise_false) < 5: premise_false.append(d)
+            c = 0
         if c == 0:
             truth["True" if v[-1] == 1 else "False"] += 1
             continue
@@ -454,6 +458,8 @@ def run(tier, seed):
                pattern_pairs=dict(universe=n_universe, run=n_pairs, distinct=len(pairs_seen)),
                patterns_per_shape={repr(s): sum(len(p) for _, p in c) for s, c in uni.items()},
                histogram=S.hist, verdicts=verd, impl_answers_accepted=truth,
+               theorem_premise=dict(evaluated_on="every equal/allclose case of equal shapes (compare_pre_b inside c13_check)",
+                                    false_on=verd.get(30, 0), samples=premise_false),
                multi=dict(cases=len(mvals), verdicts=mverd, impl_answers={str(k): sum(1 for v in mvals if v[-1] == k) for k in (0, 1, 2)}),
                third_voice_torch=S.voice, kernel_reevaluated=k1 + k2 + k3, samples=samples, open_items=OPEN_ITEMS)
     return cov, violations
